@@ -2,6 +2,7 @@ import N0Verif.Proofs.FindAll
 import N0Verif.Proofs.FindAllDesc
 import N0Verif.Proofs.FindAllList
 import N0Verif.Proofs.FindAllTail
+import N0Verif.Proofs.FindAllTailLists
 import N0Verif.Props.C01
 /-!
 # C19 — dictionary findall returns complete, resolvable, history-independent results
@@ -877,5 +878,162 @@ example : (findfirstTop 20 fresh exList ['n'] false).1 = .ok (some (['/', '/', '
 example : (findfirstTop 20 fresh exList ['z'] true).1 = .error .IndexError := by decide
 example : (findfirstTop 20 fresh exList ['z'] false).1 = .ok Option.none := by decide
 example : (findfirstTop 20 fresh exList ['[', '2', ']'] true).1 = .ok (some (['/', '/', '[', '2', ']'], .dict .n0 [])) := by decide
+
+
+/-! ## two-step tails with lists under `name` (`Proofs/FindAllTailLists.lean`) -/
+
+/-- **`'//*/name/sub'`, lists under `name` included.**  On a dict root with `KeysOkV`, `ContOkV` (no
+hypothesis about what the entries called `name` hold) the search returns, for every fuel above a
+bound, **exactly** the pairs of the DFS reference `tailOfL sub (descV name root)`: below every node
+called `name` (any depth, document order) the entry `sub` of the node itself when it is a dictionary,
+of every element in order when it is a list (lists of lists recursively: `subV`), nothing below a
+final element — under the canonical xpaths `…/name[i]/sub`, `…/name[i][j]/sub`. -/
+theorem C19_descendant_tail_lists (cls : Cls) (kvs : List (Str × Val)) (name sub : Str)
+    (hn : PlainKey name) (hs : PlainKey sub)
+    (hk : KeysOkV (.dict cls kvs)) (hc : ContOkV (.dict cls kvs)) (re : Bool := true) :
+    ∃ n, ∀ fuel ≥ n,
+      (findallTop fuel fresh (.dict cls kvs) (['/', '/', '*', '/'] ++ name ++ ['/'] ++ sub) re).res =
+        .ok (some ((tailOfL sub (descV name (.dict cls kvs))).map (fun pv => (slash ++ renderPos pv.1, pv.2)))) := by
+  obtain ⟨n, hN⟩ := fatl_descendant re hn hs cls kvs hk hc
+  refine ⟨n, fun fuel hf => ?_⟩
+  show (fa re fuel _ (tokens _) [] []).res = _
+  rw [fat_tokens hn hs]
+  exact hN fuel hf
+
+/-- the reference lists no position twice and only plain positions (so no key is reported twice) -/
+theorem C19_descendant_tail_lists_distinct (t : Val) (name sub : Str) (hs : PlainKey sub) (hk : KeysOkV t) :
+    (tailOfL sub (descV name t)).Pairwise (fun a b => a.1 ≠ b.1) ∧ ∀ pv ∈ tailOfL sub (descV name t), PlainPos pv.1 :=
+  ⟨fatl_tail_distinct name sub _ ((fad_desc_distinct name).1 _ hk).1
+      (fun b hb => (((fad_desc_mem name).1 _ hk b.1 b.2).1 hb).1),
+    fatl_tail_plain hs _ (fad_desc_plain hk)⟩
+
+/-- when no node called `name` is a list the reference is the one of `C19_descendant_tail` -/
+theorem C19_descendant_tail_lists_agrees (sub : Str) (l : List (Pos × Val)) (h : ∀ b ∈ l, ∀ c xs, b.2 ≠ .list c xs) :
+    tailOfL sub l = tailOf sub l := fatl_tailOfL_eq sub l h
+
+/-- a tree with lists under `name`: a list of dictionaries (one without `sub`) and a nested list, a
+dictionary, and a list directly in the root -/
+def exTailL : Val :=
+  .dict .n0 [(['x'], .dict .n0 [(['n', 'a', 'm', 'e'], .list .n0 [.dict .n0 [(['s', 'u', 'b'], .str ['a'])],
+                .dict .n0 [(['o'], .int 1)], .list .n0 [.dict .n0 [(['s', 'u', 'b'], .str ['b'])]]])]),
+             (['y'], .dict .n0 [(['n', 'a', 'm', 'e'], .dict .n0 [(['s', 'u', 'b'], .str ['c'])])]),
+             (['n', 'a', 'm', 'e'], .list .n0 [.dict .n0 [(['s', 'u', 'b'], .str ['d'])]])]
+
+-- non-vacuity of `C19_descendant_tail_lists`: the hypotheses hold for `exTailL`, the reference is not empty, and the
+-- model's answer is what the real code returns (`{'//name[0]/sub': 'd', '//x/name[0]/sub': 'a', '//x/name[2][0]/sub': 'b',
+-- '//y/name/sub': 'c'}`, both modes)
+example : KeysOkV exTailL ∧ ContOkV exTailL := by
+  have pk : ∀ k : Str, k ≠ [] → (∀ c ∈ k, plainChar c = true) → k ≠ ['.', '.'] → PlainKey k :=
+    fun k h1 h2 h3 => ⟨h1, h2, h3⟩
+  simp only [exTailL, KeysOkV, KeysOkK, KeysOkL, ContOkV, ContOkK, ContOkL, lookup, FindAll.isContainer]
+  refine ⟨?_, by decide⟩
+  repeat' apply And.intro
+  all_goals first | exact pk _ (by decide) (by decide) (by decide) | trivial | decide
+example : tailOfL ['s', 'u', 'b'] (descV ['n', 'a', 'm', 'e'] exTailL) =
+    [([.key ['n', 'a', 'm', 'e'], .idx 0, .key ['s', 'u', 'b']], .str ['d']),
+     ([.key ['x'], .key ['n', 'a', 'm', 'e'], .idx 0, .key ['s', 'u', 'b']], .str ['a']),
+     ([.key ['x'], .key ['n', 'a', 'm', 'e'], .idx 2, .idx 0, .key ['s', 'u', 'b']], .str ['b']),
+     ([.key ['y'], .key ['n', 'a', 'm', 'e'], .key ['s', 'u', 'b']], .str ['c'])] := by
+  simp [exTailL, descV, descK, descL, lookup, tailOfL, tl1L, subV, subL]
+example : ∀ re, (findallTop 20 fresh exTailL "//*/name/sub".toList re).res =
+    .ok (some [("//name[0]/sub".toList, .str ['d']), ("//x/name[0]/sub".toList, .str ['a']),
+      ("//x/name[2][0]/sub".toList, .str ['b']), ("//y/name/sub".toList, .str ['c'])]) := by
+  decide +kernel
+
+
+/-- **`'//*/name/sub'` on a list root (`n0list`), lists under `name` included**: exactly the pairs of the DFS
+reference `tailOfL sub (descV name root)`, keys `"//" ++` rendered position (`//[0]/name[1][0]/sub`),
+document order -/
+theorem C19_descendant_tail_lists_list_root (cls : Cls) (xs : List Val) (name sub : Str)
+    (hn : PlainKey name) (hs : PlainKey sub)
+    (hk : KeysOkV (.list cls xs)) (hc : ContOkV (.list cls xs)) (re : Bool := true) :
+    ∃ n, ∀ fuel ≥ n,
+      (findallTop fuel fresh (.list cls xs) (['/', '/', '*', '/'] ++ name ++ ['/'] ++ sub) re).res =
+        .ok (some ((tailOfL sub (descV name (.list cls xs))).map (fun pv => ('/' :: '/' :: renderPos pv.1, pv.2)))) := by
+  obtain ⟨n, hN⟩ := fatl_descendant_list re hn hs cls xs hk hc
+  refine ⟨n, fun fuel hf => ?_⟩
+  show (fa re fuel _ (tokens _) [] []).res = _
+  rw [fat_tokens hn hs]
+  exact hN fuel hf
+
+/-- a list root: a dictionary whose `name` is a list (dictionary, nested list, dictionary without `sub`),
+and a nested list with a dictionary whose `name` is a dictionary -/
+def exTailLR : Val :=
+  .list .n0 [.dict .n0 [(['n', 'a', 'm', 'e'], .list .n0 [.dict .n0 [(['s', 'u', 'b'], .str ['a'])],
+                .list .n0 [.dict .n0 [(['s', 'u', 'b'], .str ['b'])]], .dict .n0 [(['o'], .int 1)]])],
+             .list .n0 [.dict .n0 [(['n', 'a', 'm', 'e'], .dict .n0 [(['s', 'u', 'b'], .str ['c'])])]]]
+
+-- non-vacuity of `C19_descendant_tail_lists_list_root`; the real code returns
+-- `{'//[0]/name[0]/sub': 'a', '//[0]/name[1][0]/sub': 'b', '//[1][0]/name/sub': 'c'}` (both modes)
+example : KeysOkV exTailLR ∧ ContOkV exTailLR := by
+  have pk : ∀ k : Str, k ≠ [] → (∀ c ∈ k, plainChar c = true) → k ≠ ['.', '.'] → PlainKey k :=
+    fun k h1 h2 h3 => ⟨h1, h2, h3⟩
+  simp only [exTailLR, KeysOkV, KeysOkK, KeysOkL, ContOkV, ContOkK, ContOkL, lookup, FindAll.isContainer]
+  refine ⟨?_, by decide⟩
+  repeat' apply And.intro
+  all_goals first | exact pk _ (by decide) (by decide) (by decide) | trivial | decide
+example : tailOfL ['s', 'u', 'b'] (descV ['n', 'a', 'm', 'e'] exTailLR) =
+    [([.idx 0, .key ['n', 'a', 'm', 'e'], .idx 0, .key ['s', 'u', 'b']], .str ['a']),
+     ([.idx 0, .key ['n', 'a', 'm', 'e'], .idx 1, .idx 0, .key ['s', 'u', 'b']], .str ['b']),
+     ([.idx 1, .idx 0, .key ['n', 'a', 'm', 'e'], .key ['s', 'u', 'b']], .str ['c'])] := by
+  simp [exTailLR, descV, descK, descL, lookup, tailOfL, tl1L, subV, subL]
+example : ∀ re, (findallTop 20 fresh exTailLR "//*/name/sub".toList re).res =
+    .ok (some [("//[0]/name[0]/sub".toList, .str ['a']), ("//[0]/name[1][0]/sub".toList, .str ['b']),
+      ("//[1][0]/name/sub".toList, .str ['c'])]) := by
+  decide +kernel
+
+
+/-- **Both inclusions for the fan-out reference**: the pairs listed are exactly the nodes at the positions
+`… name`, any number of list indexes, `sub` — every such node, at any depth, and nothing else -/
+theorem C19_descendant_tail_lists_positions (t : Val) (name sub : Str) (hk : KeysOkV t) (p : Pos) (v : Val) :
+    (p, v) ∈ tailOfL sub (descV name t) ↔
+      ∃ (q : Pos) (is : List Nat), p = q ++ [.key name] ++ is.map Seg.idx ++ [.key sub] ∧ getAt t p = some v :=
+  fatl_tail_mem_getAt name sub t hk p v
+
+/-- the statement in the form "found iff it is the node at a position `…/name[i]…[j]/sub`" (dict root) -/
+theorem C19_descendant_tail_lists_iff (cls : Cls) (kvs : List (Str × Val)) (name sub : Str)
+    (hn : PlainKey name) (hs : PlainKey sub)
+    (hk : KeysOkV (.dict cls kvs)) (hc : ContOkV (.dict cls kvs)) (re : Bool := true) :
+    ∃ n, ∀ fuel ≥ n, ∃ f,
+      (findallTop fuel fresh (.dict cls kvs) (['/', '/', '*', '/'] ++ name ++ ['/'] ++ sub) re).res = .ok (some f) ∧
+      ∀ xp v, (xp, v) ∈ f ↔
+        ∃ (q : Pos) (is : List Nat),
+          getAt (.dict cls kvs) (q ++ [.key name] ++ is.map Seg.idx ++ [.key sub]) = some v ∧
+          xp = slash ++ renderPos (q ++ [.key name] ++ is.map Seg.idx ++ [.key sub]) := by
+  obtain ⟨n, hN⟩ := C19_descendant_tail_lists cls kvs name sub hn hs hk hc re
+  refine ⟨n, fun fuel hf => ⟨_, hN fuel hf, fun xp v => ?_⟩⟩
+  simp only [List.mem_map, Prod.mk.injEq]
+  constructor
+  · rintro ⟨⟨p, w⟩, hm, rfl, rfl⟩
+    obtain ⟨q, is, rfl, hg⟩ := (C19_descendant_tail_lists_positions _ name sub hk p w).1 hm
+    exact ⟨q, is, hg, rfl⟩
+  · rintro ⟨q, is, hg, rfl⟩
+    exact ⟨(_, v), (C19_descendant_tail_lists_positions _ name sub hk _ v).2 ⟨q, is, rfl, hg⟩, rfl, rfl⟩
+
+/-- the same on a list root -/
+theorem C19_descendant_tail_lists_iff_list_root (cls : Cls) (xs : List Val) (name sub : Str)
+    (hn : PlainKey name) (hs : PlainKey sub)
+    (hk : KeysOkV (.list cls xs)) (hc : ContOkV (.list cls xs)) (re : Bool := true) :
+    ∃ n, ∀ fuel ≥ n, ∃ f,
+      (findallTop fuel fresh (.list cls xs) (['/', '/', '*', '/'] ++ name ++ ['/'] ++ sub) re).res = .ok (some f) ∧
+      ∀ xp v, (xp, v) ∈ f ↔
+        ∃ (q : Pos) (is : List Nat),
+          getAt (.list cls xs) (q ++ [.key name] ++ is.map Seg.idx ++ [.key sub]) = some v ∧
+          xp = '/' :: '/' :: renderPos (q ++ [.key name] ++ is.map Seg.idx ++ [.key sub]) := by
+  obtain ⟨n, hN⟩ := C19_descendant_tail_lists_list_root cls xs name sub hn hs hk hc re
+  refine ⟨n, fun fuel hf => ⟨_, hN fuel hf, fun xp v => ?_⟩⟩
+  simp only [List.mem_map, Prod.mk.injEq]
+  constructor
+  · rintro ⟨⟨p, w⟩, hm, rfl, rfl⟩
+    obtain ⟨q, is, rfl, hg⟩ := (C19_descendant_tail_lists_positions _ name sub hk p w).1 hm
+    exact ⟨q, is, hg, rfl⟩
+  · rintro ⟨q, is, hg, rfl⟩
+    exact ⟨(_, v), (C19_descendant_tail_lists_positions _ name sub hk _ v).2 ⟨q, is, rfl, hg⟩, rfl, rfl⟩
+
+-- non-vacuity of the membership forms: the position `x/name[2][0]/sub` of `exTailL` holds `'b'`
+example : getAt exTailL ([.key ['x']] ++ [.key ['n', 'a', 'm', 'e']] ++ [2, 0].map Seg.idx ++ [.key ['s', 'u', 'b']])
+    = some (.str ['b']) := by decide
+example : getAt exTailLR ([.idx 0] ++ [.key ['n', 'a', 'm', 'e']] ++ [1, 0].map Seg.idx ++ [.key ['s', 'u', 'b']])
+    = some (.str ['b']) := by decide
 
 end N0.C19
